@@ -486,6 +486,10 @@ def rule_use_sites(ctx):
         raise AnalysisGap("no RW-2 use-site obligations")
 
 
+def meths_chars(meths):
+    return "chars" in meths or "bytes" in meths or "char_indices" in meths
+
+
 def rule_fresh_names(ctx):
     """restrict_quantifier_domain replaces a general variable by a *fresh* integer variable: the chooser in classic.rs (a copy of tau-star's) must
     avoid every variable of the formula and every name it has already handed out; otherwise two quantified variables are merged"""
@@ -498,6 +502,19 @@ def rule_fresh_names(ctx):
     cs = hq.calls(rh["body"], "unstable::choose_fresh_variable_names")
     ok = len(cs) == 1 and "variables" in hq.render(cs[0]["args"][0]) and hq.local_of(strip(cs[0]["args"][0]).get("recv", {})) in ("formula",) or \
         (len(cs) == 1 and "formula.variables()" in hq.render(cs[0]["args"][0]))
+    # the prefix the fresh names are built from starts a variable name: it is the first character of an existing variable's name (an upper-case
+    # letter by the grammar) or a literal letter - the last character of `I1` is a digit, and `1$i` is not a variable
+    pref_ok = False
+    if len(cs) == 1 and len(cs[0]["args"]) >= 2:
+        a1 = cs[0]["args"][1]
+        meths = [n_["method"] for n_ in walk(a1) if n_.get("k") == "MethodCall"]
+        lits_ = [n_.get("v") for n_ in walk(a1) if n_.get("k") == "Lit" and isinstance(n_.get("v"), str)]
+        selectors = [m_ for m_ in meths if m_ in ("next", "last", "nth", "next_back", "rev", "skip", "nth_back", "max", "min", "pop", "split_off", "rsplit", "rfind")]
+        first_char = "chars" in meths and selectors == ["next"]
+        literal_letter = bool(lits_) and not meths_chars(meths) and all(len(x_) >= 1 and x_[0].isalpha() and x_[0].isupper() for x_ in lits_)
+        pref_ok = first_char or literal_letter
+    ctx.add("FRESH", "classic-chooser:prefix-starts-a-variable-name", pref_ok, ctx.site(rh),
+            "the prefix of the fresh name is the first character of a variable's name (or a literal upper-case letter): %s" % [hq.render(c["args"][1])[:80] for c in cs if len(c["args"]) >= 2])
     ctx.add("FRESH", "classic-chooser:taken-is-formula-variables", ok, ctx.site(rh), "the names to avoid are the variables of the formula in which the replacement happens: %s" % [hq.render(c["args"][0]) for c in cs])
 
 
